@@ -109,37 +109,7 @@ def gh(index, rep):
             rep.check(ok, rule, f"crops_produced{sl}[{arm}] = grown x (1 - greenhouse share), same months",
                       "outdoor output on this path is not the amount grown reduced by the greenhouse share of cropland for the same months "
                       "(cropland under greenhouses would be double-counted or lost)", loc=loc(OC, fn), detail=str(v))
-    # production = crops_produced x (1 - distribution waste): evaluate the rest of the method with crops_produced opaque
-    def run_rest(it):
-        it.classes = {"OutdoorCrops": cls}
-
-        def hook(interp, d, a, kw, node):
-            if d == "Food":
-                return Obj(None, dict(kw), "food")
-            if d == "np.isnan":
-                return Obj(None, {}, "nan-test")
-            return np_hook(interp, d, a, kw, node)
-
-        it.call_hook = hook
-        obj = Obj(cls, {"CROP_WASTE_DISTRIBUTION": Rat.atom(("Wd",)), "OG_FRACTION_FAT": Rat.atom(("ff",)), "OG_FRACTION_PROTEIN": Rat.atom(("fp",))}, "self")
-        env = {"self": obj, "constants_for_params": Path(("c",)), "greenhouse_fraction_area": gfa, "crops_produced": Rat.atom(("CP",))}
-        rest = [st for st in fn.body[1:] if not isinstance(st, ast.Assert)]
-        it.exec_block(rest, env)
-        return obj
-
-    try:
-        rest_envs = explore(run_rest, month_classes=False)
-    except Unsupported as e:
-        raise AnalysisError(f"set_crop_production_minus_greenhouse_area (production part) outside the analysed fragment: {e}")
-    CP, Wd = Rat.atom(("CP",)), Rat.atom(("Wd",))
-    for _, dec, obj, it in rest_envs:
-        if isinstance(obj, Abort):
-            continue
-        prod = obj.attrs.get("production")
-        k = prod.attrs.get("kcals") if isinstance(prod, Obj) else None
-        ok = k is not None and it.to_rat(k) == CP * (Rat.const(1) - Wd / Rat.const(100))
-        rep.check(ok, rule, "production = crops_produced x (1 - W)", "the production series is not crops_produced x (1 - distribution waste)",
-                  loc=loc(OC, fn), detail=str(k))
+    c08.production_form(index, rep, rule)
     # the share passed in is the greenhouse object's share of the same run, the hd split uses the configured delays
     p = index.func(PARAMS, "Parameters.init_greenhouse_params")
     call = [c for c in walk_no_nested(p) if isinstance(c, ast.Call) and isinstance(c.func, ast.Attribute) and c.func.attr == "set_crop_production_minus_greenhouse_area"]
